@@ -211,7 +211,37 @@ func (c *Ctx) ruleStepDom(rule string) {
 					continue
 				}
 				call, ok := e.(*ssa.Call)
-				if !ok || c.calledMethodName(call) != "Validate" {
+				if ok && c.calledMethodName(call) == "Validate" {
+					continue
+				}
+				// or: a nil error returned where the declared output's Validate was found to return nil
+				passed := false
+				if core.IsNilConst(e) {
+					for _, cond := range core.CondsAt(r.Block()) {
+						x, neq, isNil := core.NilCmp(cond.V)
+						if !isNil || neq == cond.True {
+							continue
+						}
+						if vc, isCall := core.Unwrap(x).(*ssa.Call); isCall && c.calledMethodName(vc) == "Validate" {
+							v := vc.Call.Value
+							if !vc.Call.IsInvoke() && len(vc.Call.Args) > 0 {
+								v = vc.Call.Args[0]
+							}
+							for i := 0; i < 4; i++ {
+								switch y := v.(type) {
+								case *ssa.Extract:
+									v = y.Tuple
+								case *ssa.UnOp:
+									v = y.X
+								}
+							}
+							if _, isLk := v.(*ssa.Lookup); isLk {
+								passed = true
+							}
+						}
+					}
+				}
+				if !passed {
 					okVal = false
 				}
 			}
@@ -233,16 +263,40 @@ func (c *Ctx) ruleStepErrors(rule string) {
 		fn     string
 		method string // error of which call ("" = lookup miss)
 		typ    string
+		recv   string // "" any; "field": the call's receiver is loaded from a field (the input schema); "lookup": from a table lookup (the declared output)
+	}
+	recvKind := func(call *ssa.Call) string {
+		v := call.Call.Value
+		if !call.Call.IsInvoke() && len(call.Call.Args) > 0 {
+			v = call.Call.Args[0]
+		}
+		for i := 0; i < 4; i++ {
+			switch x := v.(type) {
+			case *ssa.Extract:
+				v = x.Tuple
+			case *ssa.Lookup:
+				return "lookup"
+			case *ssa.UnOp:
+				if _, ok := x.X.(*ssa.FieldAddr); ok {
+					return "field"
+				}
+				v = x.X // a value receiver loaded through the looked-up pointer
+			default:
+				return ""
+			}
+		}
+		return ""
 	}
 	for _, w := range []want{
-		{"schema.CallableSchema.CallStep", "", "BadArgumentError"},
-		{"schema.CallableSchema.CallStep", "Unserialize", "InvalidInputError"},
-		{"schema.CallableSchema.CallStep", "Serialize", "InvalidOutputError"},
-		{"schema.CallableSchema.CallSignal", "", "BadArgumentError"},
-		{"schema.CallableSchema.CallSignal", "Unserialize", "InvalidInputError"},
-		{"schema.CallableStepSchema.Call", "Validate", "InvalidInputError"},
-		{"schema.CallableStepSchema.Call", "", "InvalidOutputError"},
-		{"schema.CallableSignalSchema.Call", "Validate", "InvalidInputError"},
+		{"schema.CallableSchema.CallStep", "", "BadArgumentError", ""},
+		{"schema.CallableSchema.CallStep", "Unserialize", "InvalidInputError", ""},
+		{"schema.CallableSchema.CallStep", "Serialize", "InvalidOutputError", ""},
+		{"schema.CallableSchema.CallSignal", "", "BadArgumentError", ""},
+		{"schema.CallableSchema.CallSignal", "Unserialize", "InvalidInputError", ""},
+		{"schema.CallableStepSchema.Call", "Validate", "InvalidInputError", "field"},
+		{"schema.CallableStepSchema.Call", "Validate", "InvalidOutputError", "lookup"},
+		{"schema.CallableStepSchema.Call", "", "InvalidOutputError", ""},
+		{"schema.CallableSignalSchema.Call", "Validate", "InvalidInputError", ""},
 	} {
 		fn := c.fn(rule, w.fn)
 		if fn == nil {
@@ -252,6 +306,9 @@ func (c *Ctx) ruleStepErrors(rule string) {
 		desc := "a failed " + w.method
 		if w.method == "" {
 			desc = "an unknown ID (failed table lookup)"
+		}
+		if w.recv == "lookup" {
+			desc += " of the declared output"
 		}
 		k := key(rule, w.fn, desc+" yields "+w.typ)
 		found, bad := 0, ""
@@ -278,7 +335,7 @@ func (c *Ctx) ruleStepErrors(rule string) {
 				case *ssa.Extract:
 					call, _ = v.Tuple.(*ssa.Call)
 				}
-				if call != nil && c.calledMethodName(call) == w.method {
+				if call != nil && c.calledMethodName(call) == w.method && (w.recv == "" || recvKind(call) == w.recv) {
 					match = true
 				}
 			}
